@@ -51,9 +51,10 @@ Next == \E g \in Cre : Stat(g) \/ MkdirAll(g) \/ Mkdir(g) \/ Destroy(g)
 Spec == Init /\ [][Next]_vars
 
 \* two successful creates never yield two owning handles of one directory
-OneOwner == \A g, h \in Cre : (g # h /\ nm[g] = nm[h]) => own[g] \cap own[h] = {}
+Live(g) == g \notin dead
+OneOwner == \A g, h \in Cre : (g # h /\ nm[g] = nm[h] /\ Live(g) /\ Live(h)) => own[g] \cap own[h] = {}
 \* ... in the terms a caller can see: never two finished creators with Existing() = FALSE on one name
-OneCreator == \A g, h \in Cre : (g # h /\ nm[g] = nm[h] /\ Created(g) /\ Created(h)) => ex[g] \/ ex[h]
+OneCreator == \A g, h \in Cre : (g # h /\ nm[g] = nm[h] /\ Created(g) /\ Created(h) /\ Live(g) /\ Live(h)) => ex[g] \/ ex[h]
 \* a group that existed before is never removed, and is reported as existing
 PreSafe == /\ \A c \in 1..K : pre \subseteq dirs[c]
            /\ \A g \in Cre : (Created(g) /\ nm[g] \in pre) => ex[g]
